@@ -208,6 +208,11 @@ def feature_corpus():
     return [
  "fn main() { println([1.0, 2.5, -3.0].to_json()); let o = new { a: 2.0, b: 100.0, c: [0.0] }; println(o.to_json()); println(o.to_json_indent()); }",
  "fn main() { let o = new { ? }; try { o.set(\"self\", o); } catch e { println(e.message); }; println(o); let l = [o]; try { o.set(\"l\", l); } catch e { println(\"2\", e.message); }; let p = new { ? }; p.set(\"o\", o); o.set(\"k\", 1); println(p); try { o.set(\"p\", ?p); } catch e { println(\"3\"); }; println(o == p); }",
+ # number parsing is decimal only, on both backends
+ "fn p(s: str) { try { println(s, \"->\", s.parse_int()); } catch e { println(s, \"!\", e.message); }; } fn main() { p(\"010\"); p(\"08\"); p(\"0x1F\"); p(\"0b101\"); p(\"0o17\"); p(\"1_000\"); p(\"+5\"); p(\"-007\"); p(\" 5\"); p(\"5 \"); p(\"\"); p(\"9223372036854775807\"); p(\"9223372036854775808\"); p(\"-9223372036854775808\"); p(\"1e3\"); p(\"12.0\"); }",
+ "fn p(s: str) { try { println(s, \"->\", s.parse_float()); } catch e { println(s, \"!\"); }; } fn q(s: str) { try { println(s, \"->\", s.parse_bool()); } catch e { println(s, \"!\"); }; } fn main() { p(\"1.5\"); p(\"010\"); p(\"0x10\"); p(\"1_0.5\"); p(\".5\"); p(\"5.\"); p(\"-2.25\"); p(\"abc\"); q(\"true\"); q(\"false\"); q(\"True\"); q(\"1\"); q(\"t\"); q(\"\"); }",
+ # a data field named like a builtin member is the field (read, write, compound assignment, through a cast)
+ "fn main() { let o = new { to_string: 3, name: \"door\" }; println(o.to_string); o.to_string = 4; println(o.to_string); o.to_string += 3; println(o.to_string, o.name); let c = \"{\\\"keys\\\": 3, \\\"name\\\": \\\"door\\\", \\\"to_json\\\": 1}\".parse_json() as { keys: int, name: str, to_json: int }; println(c.name); println(c.keys + c.to_json); }",
  # every evaluation of a literal creates a fresh container (loop body, function called twice, recursion)
  "fn mk(k: str) -> { ? } { let o = new { ? }; o.set(k, 1); o } fn main() { let a = mk(\"a\"); let b = mk(\"b\"); println(a.keys(), b.keys(), a == b); for i in 0..3 { let o = new { ? }; o.set(i.to_string(), i); println(o.keys(), o.get(\"0\")); } }",
  "fn mk(n: int) -> [int] { let l = [0]; l.push(n); l } fn mo(n: int) -> { a: int, l: [int] } { let o = new { a: 0, l: [0] }; o.a += n; o.l.push(n); o } fn main() { let a = mk(1); let b = mk(2); println(a, b); let p = mo(1); let q = mo(2); println(p, q, p == q); for i in 0..3 { let l = [[i]]; l[0].push(9); println(l); } }",
